@@ -1281,7 +1281,9 @@ func (st *Runtime) evalPipeCallExpression(baseExpr reflect.Value, args CallArgs,
 		return reflect.Value{}, nil
 	}
 
-	return returns[0], nil
+	// a result declared as interface{} is the value it holds, as for map
+	// elements, fields and variables
+	return indirectEface(returns[0]), nil
 }
 
 func (st *Runtime) evalCommandExpression(node *CommandNode) (reflect.Value, bool) {
